@@ -27,7 +27,9 @@ SPEC = Spec(
          "float64 / TextUnmarshaler struct / any / int / bool fields. typed stream (1/6): whole-value references to provider texts of every "
          "YAML kind (one third YAML null: null ~ Null NULL), also inside a []string and a map[string]string and under a nested key. env "
          "harness (external package e2etest): the real envprovider behind a recording wrapper, ${env:NAME}, ${NAME}, ${env:NAME:-default}, "
-         "unset and invalid names, ToStringMap + string/any decoding. non-trivial = a token value with a reference "
+         "unset and invalid names, ToStringMap + string/any decoding. override stream (1/7): a later source replaces keys whose earlier value is a "
+         "reference to a provider MAP / an unresolvable reference (exact-override, must-succeed and provider-call oracles; every reference "
+         "provider reports its calls as `tr retrieved`). non-trivial = a token value with a reference "
          "and an escape, or more than one source; distinct = distinct op sequences.",
     trusted_base=[
         "Lean 4.33.0 kernel; axioms per theorem under axioms_per_theorem",
